@@ -50,9 +50,29 @@ Core(r, d, ins, st0) ==
      ELSE IF (st1.pw = "running") # (r.post.pw = "run") THEN <<"Power", "">>
      ELSE <<"ok", "">>
 
+\* Block moves with block lengths of tens of thousands of bytes (record field huge = 1): the byte-by-byte semantics is not
+\* unrolled; what is judged is what does not depend on the bytes moved - the counter ends at 0, an auto-modified pointer has
+\* moved by exactly I, nothing else changed, flags are preserved, and the number of distinct external locations written
+\* (field nw) is I when the destination is external and 0 otherwise.
+BlockCore(r, d, ins, st0) ==
+  LET I0 == st0.r.I
+      s1 == SetR(Bump(Bump(st0, ins.ops[1], I0), ins.ops[2], I0), "I", 0)
+      po == r.post.regs
+      badRegs == {n \in {"BA", "I", "X", "Y", "U", "S"} : s1.r[n] # po[n]}
+      dstExt == ins.ops[1].k \in {"EAddr", "EReg", "EIMem"}
+  IN IF ins.cls # "MVL" \/ r.post.err = 1 THEN <<"NoError", "">>
+     ELSE IF r.post.len # d.len THEN <<"Length", "">>
+     ELSE IF po.PC # (st0.r.PC + d.len) % M20 THEN <<"NextPC", <<(st0.r.PC + d.len) % M20, po.PC>> >>
+     ELSE IF badRegs # {} THEN LET n == CHOOSE n \in badRegs : TRUE IN <<IF s1.r[n] = st0.r[n] THEN "FrameReg" ELSE "ResultReg", <<n, s1.r[n], po[n]>> >>
+     ELSE IF po.F % 4 # st0.r.F % 4 THEN <<"FlagPreserved", "CZ">>
+     ELSE IF r.nw # (IF dstExt THEN I0 ELSE 0) THEN <<"ResultMem", <<"external locations written", IF dstExt THEN I0 ELSE 0, r.nw>> >>
+     ELSE <<"ok", "">>
+
 Verdict(r) ==
   LET d == Decode(SubSeq(r.b, 1, r.n)) IN
-  IF d.fate # "ok" THEN <<"RefAccept", "">> ELSE Core(r, d, Resolve(d), St0(r))
+  IF d.fate # "ok" THEN <<"RefAccept", "">>
+  ELSE IF r.huge = 1 THEN BlockCore(r, d, Resolve(d), St0(r))
+  ELSE Core(r, d, Resolve(d), St0(r))
 Verdicts == [k \in 1..Len(Obs) |-> Verdict(Obs[k])]
 \* Characterisation of a failing record (evaluated for failures only): which alternative reading of the instruction explains
 \* what the implementation did?  Used to tell recorded findings apart from anything else that may go wrong with the same opcode.
